@@ -203,6 +203,11 @@ PLACE_FILE = {"second_root": ("root2", "cb/src/b.rs"), "third_root": ("root3", "
               "symlink_file": ("root1", "cb/src/b.rs"),
               "sibling_prefix_root": ("root1-types", "cb/src/b.rs"), "prefix_crate_dirs": ("root1", "ca-types/src/b.rs"),
               "ann_abs_path_alone": ("root1", "cb/src/b.rs"), "ann_spaced_alone": ("root1", "cb/src/b.rs"), "ann_path_alone": ("root1", "cb/src/b.rs")}
+# an annotated item that cannot be generated (a u64 field) in a file of its own, next to two good files of the same crate; the collector
+# is made to receive the files in the order the place names (TYPESHARE_VERIF_ORDER): the run fails wherever the bad file arrives
+BAD_ORDER = {"bad_item_arrives_first": "Second,First,Third", "bad_item_arrives_middle": "First,Second,Third", "bad_item_arrives_last": "First,Third,Second"}
+for _k in BAD_ORDER:
+    PLACE_FILE[_k] = ("root1", "ca/src/bad.rs")
 # the annotation of the item that is ALONE in its file, in the spellings other than #[typeshare]
 PLACE_ANN = {"ann_abs_path_alone": "#[::typeshare::typeshare]", "ann_spaced_alone": "#[ typeshare ]", "ann_path_alone": "#[typeshare::typeshare]"}
 # directory arguments other than the top-level directories of the tree
@@ -228,6 +233,11 @@ def places(chk):
         root, rel = PLACE_FILE[c["place"]]
         files = {"root1/ca/src/lib.rs": "#[typeshare]\npub struct First { pub alpha: u32 }\n", "root1/cc/src/lib.rs": "#[typeshare]\npub struct Third { pub alpha: u32 }\n",
                  f"{root}/{rel}": PLACE_ANN.get(c["place"], "#[typeshare]") + "\npub struct Second { pub alpha: u32 }\n"}
+        env = None
+        if c["place"] in BAD_ORDER:
+            files = {"root1/ca/src/lib.rs": "#[typeshare]\npub struct First { pub alpha: u32 }\n", "root1/ca/src/third.rs": "#[typeshare]\npub struct Third { pub alpha: u32 }\n",
+                     "root1/ca/src/bad.rs": "#[typeshare]\npub struct Second { pub alpha: u64 }\n"}
+            env = {"TYPESHARE_VERIF_ORDER": BAD_ORDER[c["place"]], "TYPESHARE_VERIF_THREADS": "2"}
         if root == "root3":
             files["root2/cz/src/lib.rs"] = "pub struct NotShared;\n"
         if c["place"] == "symlink_file":          # b.rs is a symbolic link to a regular file that lies outside every scanned directory
@@ -242,7 +252,7 @@ def places(chk):
         out = os.path.join(d, "out")
         os.makedirs(out)
         dest = ["-o", os.path.join(out, "out." + common.EXT[c["lang"]])] if c["mode"] == "single" else ["-d", out]
-        r = cli.run_cli(["-l", c["lang"]] + args_for[c["lang"]] + dest + [os.path.join(d, x) for x in roots], timeout=20)
+        r = cli.run_cli(["-l", c["lang"]] + args_for[c["lang"]] + dest + [os.path.join(d, x) for x in roots], timeout=20, env=env)
         texts = [open(os.path.join(out, f)).read() for f in sorted(os.listdir(out))] if r["exit"] == "ok" else []
         return c, r, texts
 
@@ -259,7 +269,10 @@ def places(chk):
                     except Exception:  # noqa
                         continue
                     defs += [{"name": d["name"], "members": [m["key"] for m in d.get("members", [])], "variant_fields": []} for d in o["defs"]]
-            events.append({"items": items, "defs": defs, "extras": []})
+            ev = {"items": items, "defs": defs, "extras": []}
+            if c["place"] in BAD_ORDER:
+                ev.update(ungenerable=1, outcome=r["exit"])
+            events.append(ev)
             meta.append((c, r))
     ok, matched, tres = common.trace_validate("Trace_C03", events, timeout=600)
     chk.add_tlc("Trace_C03[places]", tres)
@@ -268,7 +281,7 @@ def places(chk):
     for b in tres.bad:
         c, r = meta[b - 1]
         names = [d["name"] for d in events[b - 1]["defs"]]
-        kind = "run-failed" if r["exit"] != "ok" else "item-not-found" if "Second" not in names else "other-items-lost-or-duplicated"
+        kind = "ungenerable-item-not-reported" if c["place"] in BAD_ORDER else "run-failed" if r["exit"] != "ok" else "item-not-found" if "Second" not in names else "other-items-lost-or-duplicated"
         chk.mismatch(f"C03/{c['lang']}+cli/{c['mode']}/place={c['place']}/{kind}", f"{c['lang']} {c['mode']}: annotated items First, Second ({c['place']}), Third -> "
                      f"definitions {names} (exit {r['exit']}: {r['stderr'][-160:].strip()})", {"place": c}, "one definition per annotated item", names)
     chk.traces += len(events) - len(tres.bad)
